@@ -319,7 +319,11 @@ impl Driver {
             msg: InstMsgT {
                 name: "ats".into(),
                 base: "base".into(),
-                convs: vec!["cv1".into(), "cv2".into()],
+                convs: if self.chance(0.15) {
+                    vec!["cv1".into(), "base".into(), "cv2".into()]
+                } else {
+                    vec!["cv1".into(), "cv2".into()]
+                },
                 quotes: vec!["q1".into(), "q2".into()],
                 approvers,
                 executors,
